@@ -96,8 +96,10 @@ Definition spec_elem_name (scopes : list (list rawattr)) (rawname : str) : qname
 
 (* ------------------------------------------------------------- attributes *)
 
-(* unprefixed attributes are in no namespace *)
+(* unprefixed attributes are in no namespace (an attribute has a non-empty
+   name: the tokenizer starts one with a character) *)
 Definition spec_attr (scopes : list (list rawattr)) (nv : rawattr) : option attr :=
+  if is_nil (fst nv) then None else
   match classify_raw (fst nv) with
   | KOther None l => Some (mka (mkq None [] l) (snd nv))
   | KOther (Some p) l => Some (mka (mkq (Some p) (resolve (Some p) scopes) l) (snd nv))
@@ -130,47 +132,6 @@ Fixpoint dedup_from (seen : list (bool * (str * str))) (l : list attr) : list at
 Definition spec_attrs (scopes : list (list rawattr)) (raws : list rawattr) : list attr :=
   dedup_from [] (filter_map (spec_attr scopes) raws).
 
-(* ------------------------------------------------ the known finding classes *)
-
-(* DESIGN 6.3 row 8: some attribute's raw name equals the LOCAL part of an
-   earlier attribute with a different raw name *)
-Fixpoint class8_from (seen : list str) (raws : list rawattr) : bool :=
-  match raws with
-  | [] => false
-  | (n, _) :: r =>
-    existsb (fun m => str_eqb (snd (spec_split m)) n && negb (str_eqb m n)) seen
-    || class8_from (n :: seen) r
-  end.
-Definition class8 (raws : list rawattr) : bool := class8_from [] raws.
-
-(* DESIGN 6.3 row 9: an attribute p:xmlns with p <> xmlns *)
-Definition class9 (raws : list rawattr) : bool :=
-  existsb (fun nv => match classify_raw (fst nv) with
-                     | KOther (Some _) l => str_eqb l s_xmlns
-                     | _ => false
-                     end) raws.
-
-Definition is_decl_name (n : str) : bool :=
-  match classify_raw n with KOther _ _ => false | _ => true end.
-
-(* two declarations with the same name in one tag *)
-Fixpoint dup_decl_from (seen : list str) (raws : list rawattr) : bool :=
-  match raws with
-  | [] => false
-  | (n, _) :: r =>
-    (is_decl_name n && existsb (str_eqb n) seen) || dup_decl_from (n :: seen) r
-  end.
-Definition dup_decl (raws : list rawattr) : bool := dup_decl_from [] raws.
-
-Definition names_nonempty (raws : list rawattr) : bool :=
-  forallb (fun nv => negb (is_nil (fst nv))) raws.
-
-(* a tag outside the classes that disturb the SCOPE *)
-Definition scope_ok (raws : list rawattr) : bool :=
-  names_nonempty raws && negb (class8 raws) && negb (dup_decl raws).
-(* ... and outside the one that additionally loses an attribute *)
-Definition attrs_ok (raws : list rawattr) : bool := scope_ok raws && negb (class9 raws).
-
 (* ------------------------------------------------- statements over the tree *)
 
 (* [P scopes name attrs src] for every element of the tree, [scopes] = raw
@@ -186,9 +147,7 @@ Fixpoint all_elems (P : list (list rawattr) -> qname -> list attr -> tagsrc -> P
   end.
 
 Definition name_scoped (ctx : list (list rawattr)) (name : qname) (_ : list attr) (src : tagsrc) : Prop :=
-  forallb scope_ok (snd src :: ctx) = true ->
   name = spec_elem_name (snd src :: ctx) (fst src).
 
 Definition attrs_scoped (ctx : list (list rawattr)) (_ : qname) (attrs : list attr) (src : tagsrc) : Prop :=
-  attrs_ok (snd src) = true -> forallb scope_ok ctx = true ->
   attrs = spec_attrs (snd src :: ctx) (snd src).
